@@ -52,11 +52,34 @@ type outcome struct {
 	Err   string `json:"err,omitempty"`
 	Panic string `json:"panic,omitempty"`
 	Out   string `json:"out,omitempty"`
+
+	// raw: the bytes an encode call handed to its caller, RETAINED as they are (not copied) until the result is
+	// compared — after the goroutines of the round have joined, after further calls on the same or other codecs.
+	// A caller may keep what ProtoToJSON returned; a buffer that the codec reuses for a later call shows here.
+	raw []byte
+}
+
+// settled: the outcome with the retained bytes read now
+func (o outcome) settled() outcome {
+	if o.raw != nil {
+		o.Out, o.raw = string(o.raw), nil
+	}
+	return o
 }
 
 // same: class, error text / panic value and output are what the call returns alone
 func (o outcome) same(p outcome) bool {
+	o, p = o.settled(), p.settled()
 	return o.Err == p.Err && o.Panic == p.Panic && o.Out == p.Out
+}
+
+func (o outcome) MarshalJSON() ([]byte, error) {
+	s := o.settled()
+	return json.Marshal(struct {
+		Err   string `json:"err,omitempty"`
+		Panic string `json:"panic,omitempty"`
+		Out   string `json:"out,omitempty"`
+	}{s.Err, s.Panic, s.Out})
 }
 
 // progress counts completed calls; running is non-zero while the goroutines of a round run
@@ -141,7 +164,7 @@ func doCall(cd *j5codec.Codec, b *cdesc.Built, enc map[int]string, c call) (o ou
 		if err != nil {
 			return outcome{Err: err.Error()}
 		}
-		return outcome{Out: string(out)}
+		return outcome{raw: out}
 	case 4:
 		msg, err := b.PopulateWithAny(c.Node, c.Target, 1)
 		if err != nil {
@@ -151,7 +174,7 @@ func doCall(cd *j5codec.Codec, b *cdesc.Built, enc map[int]string, c call) (o ou
 		if err != nil {
 			return outcome{Err: err.Error()}
 		}
-		return outcome{Out: string(out)}
+		return outcome{raw: out}
 	case 2:
 		msg := b.New(c.Node)
 		if err := cd.JSONToProto([]byte(enc[c.Node]), msg); err != nil {
@@ -208,7 +231,7 @@ func warmCold(enc *json.Encoder, seed uint64, k int, r *vh.Rand) int {
 	}
 	solo := make([]outcome, len(u.Nodes))
 	for i := range u.Nodes {
-		solo[i] = doCall(j5codec.NewCodec(), b, nil, call{Kind: 1, Node: i})
+		solo[i] = doCall(j5codec.NewCodec(), b, nil, call{Kind: 1, Node: i}).settled()
 	}
 	shared := j5codec.NewCodec()
 	if o := doCall(shared, b, nil, call{Kind: 1, Node: 0}); !o.same(solo[0]) { // warm it
@@ -273,7 +296,7 @@ func deepDecode(enc *json.Encoder, seed uint64, k int, r *vh.Rand) int {
 	doc := strings.Repeat(`{"r0":`, depth) + `{"label":"x"}` + strings.Repeat("}", depth)
 	docs := map[int]string{0: doc}
 	c := call{Kind: 2, Node: 0}
-	want := doCall(j5codec.NewCodec(), b, docs, c)
+	want := doCall(j5codec.NewCodec(), b, docs, c).settled()
 	if want.Err != "" || want.Panic != "" {
 		fmt.Fprintf(os.Stderr, "solo decode of a document nested %d levels (limit 10000) fails: %+v\n", depth, want)
 		os.Exit(3)
@@ -378,12 +401,25 @@ func main() {
 		// solo results, each on a fresh codec
 		encoded := map[int]string{}
 		for _, i := range ms {
-			o := doCall(newCodec(), b, nil, call{Kind: 1, Node: i})
+			o := doCall(newCodec(), b, nil, call{Kind: 1, Node: i}).settled()
 			if (o.Err != "" || o.Panic != "") != !u.Good(i) {
 				fmt.Fprintf(os.Stderr, "solo encode of node %d (reflectable: %v): %+v\n", i, u.Good(i), o)
 				os.Exit(3)
 			}
-			encoded[i] = o.Out
+			encoded[i] = o.settled().Out // read at once: the reference encoding, also the input of the decode calls
+		}
+		// two consecutive encodes on one goroutine and one fresh codec, the first result read only after the second call
+		if len(ms) >= 1 {
+			cd := newCodec()
+			i, j := ms[0], ms[len(ms)-1]
+			first := doCall(cd, b, nil, call{Kind: 1, Node: i})
+			second := doCall(cd, b, nil, call{Kind: 1, Node: j})
+			total += 2
+			if f := first.settled(); f.Err == "" && f.Panic == "" && f.Out != encoded[i] {
+				_ = enc.Encode(map[string]any{"fail": map[string]any{"round": k, "mode": "retained-result", "shape": why, "universe": u,
+					"calls": []call{{Kind: 1, Node: i}, {Kind: 1, Node: j}}, "what": "the bytes returned by the first encode, read after the second encode on the same goroutine and codec",
+					"got": f, "want": outcome{Out: encoded[i]}, "second": second}})
+			}
 		}
 		ng := r.Range(2, 16)
 		hot := vh.Pick(r, ms)
@@ -429,7 +465,7 @@ func main() {
 		for g := range calls {
 			for i, c := range calls[g] {
 				total++
-				want := doCall(newCodec(), b, encoded, c)
+				want := doCall(newCodec(), b, encoded, c).settled()
 				if !got[g][i].same(want) {
 					_ = enc.Encode(map[string]any{"fail": map[string]any{
 						"round": k, "mode": mode, "shape": why, "universe": u, "goroutines": ng, "calls": calls,
@@ -452,11 +488,11 @@ func main() {
 			solo := map[call]outcome{}
 			for _, i := range ms {
 				for kind := 1; kind <= 3; kind++ {
-					solo[call{Kind: kind, Node: i}] = doCall(newCodec(), b, encoded, call{Kind: kind, Node: i})
+					solo[call{Kind: kind, Node: i}] = doCall(newCodec(), b, encoded, call{Kind: kind, Node: i}).settled()
 				}
 				if anyRound {
 					for _, j := range ms {
-						solo[call{Kind: 4, Node: i, Target: j}] = doCall(newCodec(), b, encoded, call{Kind: 4, Node: i, Target: j})
+						solo[call{Kind: 4, Node: i, Target: j}] = doCall(newCodec(), b, encoded, call{Kind: 4, Node: i, Target: j}).settled()
 						if *show {
 							fmt.Fprintf(os.Stderr, "round %d: node %d (good %v) any of %d (good %v): %+v\n", k, i, u.Good(i), j, u.Good(j), solo[call{Kind: 4, Node: i, Target: j}])
 						}
